@@ -26,6 +26,7 @@ static int64_t op_aegis(void) { unsigned char c[64], k[16], n[16], m[20]; unsign
 static int64_t op_aegis256(void) { unsigned char c[64], k[32], n[32], m[20]; unsigned long long cl; memset(k, 3, 32); memset(n, 4, 32); memset(m, 5, 20); crypto_aead_aegis256_encrypt(c, &cl, m, 20, NULL, 0, NULL, n, k); return (int64_t) h64(H0, c, (size_t) cl); }
 static int64_t op_pwhash(void) { unsigned char o[16], s[16]; memset(s, 2, 16); if (crypto_pwhash(o, 16, "pw", 2, s, 1, 8192, crypto_pwhash_ALG_ARGON2ID13)) return -1; return (int64_t) h64(H0, o, 16); }
 static int64_t op_randombuf(void) { unsigned char b[24]; randombytes_buf(b, sizeof b); return (int64_t) h64(H0, b, sizeof b); }
+static int64_t op_randombuf_large(void) { static __thread unsigned char b[20000]; randombytes_buf(b, sizeof b); randombytes_buf(b, 16384); randombytes_buf(b, 16383); return 1; }
 static int64_t op_uniform(void) { return (int64_t) randombytes_uniform(1000); }
 static int64_t op_secretbox(void) { unsigned char c[48], k[32], n[24], m[32]; memset(k, 1, 32); memset(n, 2, 24); memset(m, 3, 32); crypto_secretbox_easy(c, m, 32, n, k); return (int64_t) h64(H0, c, 48); }
 static int64_t op_aead(void) { unsigned char c[48], k[32], n[12], m[32]; unsigned long long cl; memset(k, 1, 32); memset(n, 2, 12); memset(m, 3, 32); crypto_aead_chacha20poly1305_ietf_encrypt(c, &cl, m, 32, NULL, 0, NULL, n, k); return (int64_t) h64(H0, c, 48); }
@@ -174,6 +175,6 @@ static const struct { const char *name; op_fn fn; } OPS[] = {
     { "ristretto255 from_string", op_ris_h2c }, { "random points/scalars", op_randoms }, { "crypto_hash/sha256/blake2b salt-personal", op_hash_aliases }, { "hkdf extract multipart", op_hkdf_multi },
     { "kx keypair/server", op_kx2 }, { "argon2i str / str_alg / needs_rehash", op_argon2i_str }, { "scrypt high-level + str", op_scrypt_hl }, { "sign keypair/sk_to_*", op_sign_misc },
     { "stream one-shots / xor_ic", op_stream_oneshots }, { "secretstream rekey + constants", op_secretstream_rekey },
-    { "shared const aes256gcm_state (afternm, 300 bytes)", op_shared_gcm }, { "shared const keys/nonces/key pairs", op_shared_keys } };
+    { "randombytes_buf(large requests)", op_randombuf_large }, { "shared const aes256gcm_state (afternm, 300 bytes)", op_shared_gcm }, { "shared const keys/nonces/key pairs", op_shared_keys } };
 #define NOPS ((int) (sizeof OPS / sizeof OPS[0]))
 #endif
